@@ -322,6 +322,14 @@ class Tags:
                 ctx.violation("C09", "show_failed", facts, "`show` exit %s without a current version (%s)" % (
                     res.exit_code, [m for _l, _n, m in res.logs][-2:]))
             if new is not None:
+                # C01 (update leg with VCS tags): valid for the pattern and strictly greater than the version it started from
+                if not rp.accepts(tree, new):
+                    ctx.violation("C01", "announced_not_accepted", dict(facts, old=got, new=new),
+                                  "announced %r is not accepted in full by %r" % (new, pattern))
+                elif got is not None and pep440.cmp(new, got) <= 0:
+                    ctx.violation("C01", "not_strictly_greater", dict(facts, old=got, new=new),
+                                  "announced %r is not strictly greater than the start version %r (from %s)" % (
+                                      new, got, "a tag" if got in pre_tags else "the config"))
                 if new in pre_tags:
                     ctx.violation("C09", "new_version_equals_existing_tag", facts,
                                   "%s announced %r which already exists as a tag (tags %s)" % (argv, new, sorted(pre_tags)[:12]))
